@@ -1229,6 +1229,31 @@ func (u *Unit) evalLoc(env *Env, x Expr, src string) []frameItem {
 	case *ECall:
 		switch x.Fn {
 		case "elems":
+			if id, ok := x.Args[0].(*EIdent); ok && env.fr != nil {
+				// a local array variable: all of its elements
+				for _, b := range env.fr.fn.Blocks {
+					for _, in := range b.Instrs {
+						a, ok := in.(*ssa.Alloc)
+						if !ok || a.Comment != id.Name {
+							continue
+						}
+						at, isArr := types.Unalias(ptrElem(a.Type())).Underlying().(*types.Array)
+						if !isArr {
+							continue
+						}
+						p, ok := env.fr.regs[a].(*Term)
+						if !ok {
+							continue
+						}
+						var out []frameItem
+						u.forEachElemMap(at.Elem(), parr(p), func(name string, sort Sort) {
+							u.heapGet(env.st, name, sort)
+							out = append(out, frameItem{Map: name, Elem: sort, Ptr: mkptr(parr(p), IntLit(0)), AllIdx: true, Src: src})
+						})
+						return out
+					}
+				}
+			}
 			r := env.eval(x.Args[0])
 			s, ok := r.v.(*Term)
 			if !ok || s.Sort != SSlice {
